@@ -120,7 +120,7 @@ theorem sortDedup_sorted (l : List Nat) : (sortDedup l).Pairwise (· < ·) := by
   | cons x xs ih => exact insertSorted_sorted x _ ih
 
 /-- a strictly increasing list is determined by its members -/
-theorem sorted_ext : ∀ (l1 l2 : List Nat), l1.Pairwise (· < ·) → l2.Pairwise (· < ·) →
+theorem sorted_nat_ext : ∀ (l1 l2 : List Nat), l1.Pairwise (· < ·) → l2.Pairwise (· < ·) →
     (∀ x, x ∈ l1 ↔ x ∈ l2) → l1 = l2 := by
   intro l1
   induction l1 with
@@ -158,7 +158,7 @@ theorem sorted_ext : ∀ (l1 l2 : List Nat), l1.Pairwise (· < ·) → l2.Pairwi
 
 theorem sortDedup_ext (l1 l2 : List Nat) (h : ∀ x, x ∈ l1 ↔ x ∈ l2) :
     sortDedup l1 = sortDedup l2 :=
-  sorted_ext _ _ (sortDedup_sorted l1) (sortDedup_sorted l2) fun x => by
+  sorted_nat_ext _ _ (sortDedup_sorted l1) (sortDedup_sorted l2) fun x => by
     rw [mem_sortDedup, mem_sortDedup]; exact h x
 
 /-! ### `mapM` in `Option` -/
